@@ -136,3 +136,38 @@ def shadow(obj, extra_passes=(), extra_globals=None, log_names=('log',)):
   except Exception:
     pass
   return out
+
+
+def shadow_module(mod, extra_passes=(), name_suffix='__shadow'):
+  """Message-stripped copy of a whole carbon module, executed in a fresh module object."""
+  import types
+  with open(inspect.getsourcefile(mod)) as fh:
+    src = fh.read()
+  tree = ast.parse(src)
+  stripper = _MsgStripper()
+  tree = stripper.visit(tree)
+  for p in extra_passes:
+    tree = p(tree)
+  ast.fix_missing_locations(tree)
+  new = types.ModuleType(mod.__name__ + name_suffix)
+  new.__file__ = '<shadow of %s>' % mod.__name__
+  new.__package__ = mod.__package__
+  code = compile(tree, new.__file__, 'exec')
+  exec(code, new.__dict__)
+  new.__vp_stripped__ = stripper.stripped
+  new.__vp_shadow_source__ = ast.unparse(tree)
+  return new
+
+
+def extract_statements(mod, predicate):
+  """Top-level-or-nested statements of mod's source satisfying predicate(node, source_segment)."""
+  with open(inspect.getsourcefile(mod)) as fh:
+    src = fh.read()
+  tree = ast.parse(src)
+  out = []
+  for node in ast.walk(tree):
+    if isinstance(node, ast.stmt):
+      seg = ast.get_source_segment(src, node) or ''
+      if predicate(node, seg):
+        out.append(node)
+  return out
